@@ -393,13 +393,29 @@ theorem tcp_rsp_encode_decode_fixed (tid : UInt16) (uid : UInt8) (r : Response) 
   rw [h5] at h1 h3
   exact ⟨out, h1, h3, h4⟩
 
+/-- **Read Exception Status** (`07 s`, two bytes) like any fixed-layout kind: every status byte, every
+    transaction and unit id, every buffer of at least nine bytes; the very same value comes back -/
+theorem tcp_rsp_encode_decode_read_exception_status (tid : UInt16) (uid s : UInt8) (buf : Bytes)
+    (hb : 9 ≤ buf.length) :
+    ∃ out, Tcp.encodeResponse tid uid (.ok (.readExceptionStatus s)) buf = .ok (9, out) ∧
+      out.take 9 = Spec.tcpFrame tid uid [0x07, s] ∧
+      Tcp.decodeResponse (out.take 9) = .ok (some (tid, uid, .ok (.readExceptionStatus s))) ∧
+      Tcp.decodeResponse out = .ok (some (tid, uid, .ok (.readExceptionStatus s))) := by
+  have hi : (Response.readExceptionStatus s).image = [0x07, s] := rfl
+  have hd : Response.decode (Response.readExceptionStatus s).image = .ok (.readExceptionStatus s) := by
+    rw [hi]; simp [Response.decode, idx, minResponsePduLen, show FunctionCode.new 0x07 = .readExceptionStatus from by decide]
+  obtain ⟨out, h1, h2, h3, h4⟩ := tcp_rsp_encode_decode tid uid (.readExceptionStatus s) (.readExceptionStatus s) buf
+    ⟨trivial, by rw [hi]; simp⟩ (by rw [hi]; exact hb)
+    (tcp_rsp_frameable _ trivial trivial) (by rw [hi]; simp) (exc_decode_err_of_lt _ 0x07 rfl (by decide)) hd
+  exact ⟨out, h1, h2, h3, h4⟩
+
 /-- **custom responses, no PDU-level hypothesis left**: a custom function code below 0x80 that the
-    response table knows and that is not one of the nine modelled kinds (0x07, 0x0B, 0x0C, 0x16, 0x18)
+    response table knows and that is not one of the ten kinds the response decoder models (0x0B, 0x0C, 0x16, 0x18; 0x07 is a modelled kind now)
     comes back as `Custom(FunctionCode::new(code), data)` — the same code and the same data -/
 theorem tcp_rsp_roundtrip_custom (tid : UInt16) (uid : UInt8) (fc : FunctionCode) (d : Bytes)
     (hc : Spec.PduComplete .rsp (Response.custom fc d).image)
     (hn : (Response.custom fc d).image.length + 1 < 65536)
-    (hlt : fc.value < 0x80) (hm : fc.value ∉ modelledReqCodes) (rest : Bytes) :
+    (hlt : fc.value < 0x80) (hm : fc.value ∉ modelledRspCodes) (rest : Bytes) :
     Tcp.decodeResponse (Spec.tcpFrame tid uid (Response.custom fc d).image ++ rest) =
       .ok (some (tid, uid, .ok (.custom (FunctionCode.new fc.value) d))) ∧
     (Response.custom (FunctionCode.new fc.value) d).sem = (Response.custom fc d).sem := by
@@ -412,7 +428,7 @@ theorem tcp_rsp_roundtrip_custom (tid : UInt16) (uid : UInt8) (fc : FunctionCode
     a custom PDU with a 16-bit count (0x18, read FIFO queue) -/
 example : Spec.PduComplete .rsp (Response.custom (.custom 0x18) [0x00, 0x02, 0xAA, 0xBB]).image ∧
     (Response.custom (.custom 0x18) [0x00, 0x02, 0xAA, 0xBB]).image.length + 1 < 65536 ∧
-    (FunctionCode.custom 0x18).value < 0x80 ∧ (FunctionCode.custom 0x18).value ∉ modelledReqCodes := by
+    (FunctionCode.custom 0x18).value < 0x80 ∧ (FunctionCode.custom 0x18).value ∉ modelledRspCodes := by
   unfold Spec.PduComplete; decide +kernel
 example : Tcp.decodeResponse (Spec.tcpFrame 0x0102 0x03 (Response.readHoldingRegisters ⟨[0x12, 0x34, 0x56, 0x78], 2⟩).image ++ [0x99]) =
     .ok (some (0x0102, 0x03, .ok (.readHoldingRegisters ⟨[0x12, 0x34, 0x56, 0x78], 2⟩))) :=
